@@ -233,6 +233,7 @@ type edOp struct {
 	Name string
 	A    []string // decoded scalar arguments
 	List []edEnt  // setrequire / setrequiresep (K=[path,vers], Ind) ; setuse (K=[dir,modpath])
+	Rev  bool     // bulk setters: which map-iteration order the MODEL uses (ignored by the implementation)
 }
 
 var edOpArity = map[string]int{
@@ -274,6 +275,13 @@ func (o edOp) encode() string {
 			p = append(p, hx(a))
 		}
 	}
+	if edOpArity[o.Name] < 0 {
+		if o.Rev {
+			p = append(p, "1")
+		} else {
+			p = append(p, "0")
+		}
+	}
 	return strings.Join(p, " ")
 }
 
@@ -299,9 +307,10 @@ func edParseOps(toks []string) ([]edOp, bool) {
 		}
 		o := edOp{Name: cur[0]}
 		if ar < 0 {
-			if len(cur) != 2 {
+			if len(cur) != 2 && len(cur) != 3 {
 				return false
 			}
+			o.Rev = len(cur) == 3 && cur[2] == "1"
 			if cur[0] == "setuse" {
 				if cur[1] != "_" {
 					for _, it := range strings.Split(cur[1], ",") {
